@@ -11,7 +11,7 @@ RULE = ("shapes enumerated exhaustively within the tier's bound (quick: 1..5 axe
         "axes and lengths 1..5); per shape: iter_indices history (elements+3 calls, len interleaved), every axis 0..d+1 x "
         "every position 0..len (in and out of range) view-iterator history continued 3 calls past exhaustion, iter_axis "
         "history, get AND get_mut (with a write through it: exactly that position changes) at every in-range index of small shapes plus out-of-range (up to two past the end) / wrong-length indices, sum along every "
-        "axis; debug build (thorough: also release). non-trivial = model output contains at least one yielded item; View::to_array of every axis view: shape, data, get at every index, views of the copy; histories continued on a clone of a partly consumed view iterator, along every axis; Iterator::last and count on the view iterator at every position of a history; count / last / for_each on the axis iterator in and out of range")
+        "axis; debug build (thorough: also release). non-trivial = model output contains at least one yielded item; View::to_array of every axis view: shape, data, get at every index, views of the copy; histories continued on a clone of a partly consumed view iterator, along every axis; Iterator::last and count on the view iterator at every position of a history; count / last / for_each on the axis iterator in and out of range; Array::new and get with axis lengths anywhere in usize (wrapping products, zero-length axes beside huge ones) against the 64-bit model of Word.v")
 
 
 def fmt(l):
@@ -149,6 +149,42 @@ def zero_axis_cases():
     return cs
 
 
+def word_cases(rng, tier):
+    """the 64-bit layer (Model/Word.v, Proofs/WordP.v): Array::new with axis lengths anywhere in usize - products that wrap to
+    the data length or to zero, prefix products that overflow before a zero-length axis, zero-length axes beside huge ones
+    (strides saturate) - and get on what was accepted, at indices in range, one past the end and at the far end of usize"""
+    M = 2**64
+    cs = []
+    def probes(sh):
+        d = len(sh)
+        ps = [[0] * d, [max(n - 1, 0) for n in sh], list(sh), [M - 1] * d, [0] * (d + 1), [0] * max(d - 1, 0)]
+        for _ in range(4):
+            ps.append([rng.randrange(n + 1) if n < 2**32 else rng.choice([0, n - 1, n // 2]) for n in sh])
+        return ";".join(fmt(p) for p in ps)
+    # accepted, small: the word-level computation is the row-major position
+    for d in range(1, 5):
+        for _ in range(6 if tier == "quick" else 40):
+            sh = [rng.randrange(1, 6) for _ in range(d)]
+            cs.append("wnew %d %s %s" % (elements(sh), fmt(sh), probes(sh)))
+            cs.append("wnew %d %s %s" % (elements(sh) + rng.choice([-1, 1]), fmt(sh), probes(sh)))
+    # wrapped products: the true product is k * 2^64 + len
+    for sh in ([2**32, 2**32], [2**63, 2], [2**16, 2**16, 2**16, 2**16], [2**32 + 1, 2**32 - 1], [2**63 + 1, 2], [3, 6148914691236517206],
+               [M - 1, M - 1], [2**32, 2**32, 7], [7, 2**32, 2**32], [2**21] * 3 + [2], [M - 1, 2], [2, M - 1], [M - 1]):
+        true = elements(sh)
+        for ln in sorted(set([0, 1, true % M, (true % M) + 1, 7])):
+            if ln <= 4096:
+                cs.append("wnew %d %s %s" % (ln, fmt(sh), probes(sh)))
+    # zero-length axes beside huge ones: accepted (no elements) when the product BEFORE the zero fits; strides saturate
+    for sh in ([0, M - 1, 2], [0, M - 1, M - 1, M - 1], [2, 0, M - 1, 3], [M - 1, 0], [M - 1, 0, M - 1], [2**63, 4, 0], [2**63, 2, 0],
+               [2**32, 2**32, 0], [2**32, 2**31, 0, 2**40, 2**40], [0, 2**63, 2, 2], [1, 0, M - 1, M - 1], [0], [0, 0], [5, 0, 5]):
+        for ln in (0, 1):
+            cs.append("wnew %d %s %s" % (ln, fmt(sh), probes(sh)))
+    # one long axis beside short ones: in range, no data of that size is needed when an axis is zero ... and real data when small
+    for sh in ([1, 1, 1000], [1000, 1, 1], [10, 10, 10], [1, 4096], [64, 64]):
+        cs.append("wnew %d %s %s" % (elements(sh), fmt(sh), probes(sh)))
+    return cs
+
+
 def check(rep, tier, seed):
     rng = random.Random(seed)
     shapes, exhaustive = shapes_for(tier, rng)
@@ -163,6 +199,10 @@ def check(rep, tier, seed):
     # property's statement - the executable model answers, the implementation must not panic and must agree)
     compare_cases(rep, "array-api-zero-length-axis", zero_axis_cases(), nontrivial=lambda c, m: True, classify=lambda c, m, i: "array:zero-length-axis" + (":panic" if "PANIC" in i else ""), spec=True,
                   both_builds=(tier == "thorough"))
+    # the machine-word layer under the unbounded model (WordP.v: on every accepted array the 64-bit computation never
+    # overflows and is the model's flat index)
+    compare_cases(rep, "array-word-layer", word_cases(rng, tier), nontrivial=lambda c, m: m.startswith("Ok"),
+                  classify=lambda c, m, i: "array:word-layer" + (":panic" if "PANIC" in i else ""), spec=True, both_builds=(tier == "thorough"))
     rep.assumptions += ["the theorems carry positive_shape (axis lengths >= 1); zero-length axes are exercised against the executable model only",
                         "element values are the row-major ramp (identifies positions) or small integers (sum), exact in f64"]
 
